@@ -957,6 +957,63 @@ def b_branches_and_nodes(S):
         raisers={"report_snapping_loop(loops, allowed_loops=allowed_loops)": ("(decide (loops > allowed_loops))", "RecursionError")})
 
 
+def b_validation_utils(S):
+    """decision skeletons of fractopo/tval/trace_validation_utils.py: `determine_trace_candidates` (extended window -> index query, own
+    position removed with list.remove's ValueError, LineStrings only), `is_underlapping` (split; one piece = underlapping; a piece within
+    the error distance of the end = overlapping; else unresolved), `determine_middle_in_triangle`, `split_to_determine_triangle_errors`
+    (split failure, more than three pieces, a middle piece inside the triangle window). GEOS operations are parameters."""
+    src = S[TVU]
+    out = []
+    C = {
+        "spatial_index is None": "false",
+        "geom_bounds(geom)": "(bounds_of geom)",
+        "spatial_index_intersection(spatial_index, (min_x - extend_bounds_by, min_y - extend_bounds_by, max_x + extend_bounds_by, max_y + extend_bounds_by))":
+            "(index_query ((min_x - extend_bounds_by), (min_y - extend_bounds_by), (max_x + extend_bounds_by), (max_y + extend_bounds_by)))",
+        "traces.geometry.iloc[candidate_idxs]": "(List.filterMap (fun i => traces[i]?) candidate_idxs)",
+        "candidate_traces.loc[[isinstance(geom, LineString) for geom in candidate_traces.geometry.values]]": "(List.filter is_ls candidate_traces)",
+        "gpd.GeoSeries()": "[]",
+    }
+    T = {"spatial_index is None": "Bool", "geom_bounds(geom)": "Rat × Rat × Rat × Rat", "min_x": "Rat", "min_y": "Rat", "max_x": "Rat", "max_y": "Rat",
+         "spatial_index_intersection(spatial_index, (min_x - extend_bounds_by, min_y - extend_bounds_by, max_x + extend_bounds_by, max_y + extend_bounds_by))": "List Nat",
+         "candidate_idxs": "List Nat", "traces.geometry.iloc[candidate_idxs]": "List G", "candidate_traces": "List G",
+         "candidate_traces.loc[[isinstance(geom, LineString) for geom in candidate_traces.geometry.values]]": "List G", "gpd.GeoSeries()": "List G"}
+    out.append(translate_function(
+        src, "determine_trace_candidates", "determine_trace_candidates", {"geom": "G", "idx": "Nat", "traces": "List G", "extend_bounds_by": "Rat"}, "List G", C, types=T, raises=True,
+        extra_params=[("{G}", "Type"), ("bounds_of", "G → Rat × Rat × Rat × Rat"), ("index_query", "Rat × Rat × Rat × Rat → List Nat"), ("is_ls", "G → Bool")],
+        default_num="Rat", join="tuple", strict_remove=True))
+    # is_underlapping: try: split(..) except ValueError: return None
+    C = {"list(split(geom, trace).geoms)": "(split_ geom trace)", "segment.distance(endpoint)": "(sdist segment endpoint)",
+         "True": "(some true)", "False": "(some false)", "None": "none"}
+    T = {"list(split(geom, trace).geoms)": "Option (List S)", "split_results": "List S", "segment.distance(endpoint)": "Rat", "segment": "S",
+         "log_prints": "Unit"}
+    src_u = standalone(src, "is_underlapping", [(r"log_prints = \{[^}]*\}", "pass")])
+    out.append(translate_function(
+        src_u, "is_underlapping", "is_underlapping", {"geom": "L", "trace": "L", "endpoint": "P", "snap_threshold": "Rat", "snap_threshold_error_multiplier": "Rat"}, "Option Bool",
+        C, types=T, extra_params=[("{L}", "Type"), ("{S}", "Type"), ("{P}", "Type"), ("split_", "L → L → Option (List S)"), ("sdist", "S → P → Rat")], default_num="Rat", join="tuple"))
+    # determine_middle_in_triangle: `others = segments.copy(); others.pop(idx)`
+    C = {"segments.copy()": "segments", "linestring.distance(other)": "(ssdist linestring other)", "segments[idx]": "linestring"}
+    T = {"segments.copy()": "List S", "others": "List S", "linestring.distance(other)": "Rat", "candidates": "List S", "segments[idx]": "S", "other": "S", "linestring": "S"}
+    out.append(translate_function(
+        src, "determine_middle_in_triangle", "determine_middle_in_triangle", {"segments": "List S", "snap_threshold": "Rat", "snap_threshold_error_multiplier": "Rat"}, "List S",
+        C, types=T, extra_params=[("{S}", "Type"), ("ssdist", "S → S → Rat")], slice_from="candidates = []", default_num="Rat", join="tuple"))
+    # split_to_determine_triangle_errors
+    src_t = standalone(src, "split_to_determine_triangle_errors", [(r"seg_lengths: List\[float\] = ", "seg_lengths = ")])
+    kw = "determine_middle_in_triangle(list(segments.geoms), snap_threshold=snap_threshold, snap_threshold_error_multiplier=triangle_error_snap_multiplier)"
+    C = {"split(trace, splitter_trace)": "(split_ trace splitter_trace)", "trace.intersection(splitter_trace)": "()",
+         "isinstance(trace_intersection, Point)": "(inter_is_point trace splitter_trace)", "segments.geoms": "segments",
+         kw: "(determine_middle_in_triangle ssdist segments snap_threshold triangle_error_snap_multiplier)",
+         "[seg.length for seg in middle]": "(List.map slen middle)", "[seg.length for seg in segments.geoms]": "(List.map slen segments)"}
+    T = {"split(trace, splitter_trace)": "Option (List S)", "segments": "List S", "trace.intersection(splitter_trace)": "Unit", "trace_intersection": "Unit",
+         "isinstance(trace_intersection, Point)": "Bool", "segments.geoms": "List S", kw: "List S", "middle": "List S",
+         "[seg.length for seg in middle]": "List Rat", "[seg.length for seg in segments.geoms]": "List Rat", "seg_lengths": "List Rat", "seg_length": "Rat"}
+    out.append(translate_function(
+        src_t, "split_to_determine_triangle_errors", "split_to_determine_triangle_errors",
+        {"trace": "L", "splitter_trace": "L", "snap_threshold": "Rat", "triangle_error_snap_multiplier": "Rat"}, "Bool", C, types=T,
+        extra_params=[("{L}", "Type"), ("{S}", "Type"), ("split_", "L → L → Option (List S)"), ("inter_is_point", "L → L → Bool"), ("ssdist", "S → S → Rat"), ("slen", "S → Rat")],
+        slice_from="try:", default_num="Rat", join="tuple"))
+    return "\n".join(out)
+
+
 def b_determine_intersect(S):
     """`determine_intersect`: which ordered pair of sets an X/Y node between two sets is recorded under, or ValueError"""
     fn = find_func(ast.parse(S[REL]), "determine_intersect")
@@ -1618,6 +1675,7 @@ ITEMS: List[Item] = [
     Item("ValidateStep", TVAL, ["C09", "C13"], b_validate_step),
     Item("ValidationPass", TVAL, ["C09", "C13"], b_validation_pass),
     Item("UnderlapValidator", TVALS, ["C10", "C13"], b_underlap_validator),
+    Item("ValidationUtils", TVU, ["C10", "C16"], b_validation_utils),
     Item("AreaValidator", TVALS, ["C10"], b_area_validator),
     Item("ValidationDefaults", TVAL, ["C10", "C03", "C16"], b_validation_defaults),
     Item("CacheDecorated", GENERAL, ["C17"], b_cache_decorated, extra_modules=[m for m in ALL_MODULES if m != GENERAL]),
